@@ -136,6 +136,18 @@ fn same_parent<C: CI>(ctx: &mut Ctx, x: &[u8], y: &[u8], p1: usize, gap: usize) 
         let want2 = all[p1..p1 + n] == all[p1 + 1..p1 + 1 + n];
         check!(ctx, (w1 == w2) == want2, format!("SeqSlice==SeqSlice|{name}|same-parent-overlap"), "{what}: overlapping windows shifted by one compare {}, contents are {}", w1 == w2, if want2 { "identical" } else { "different" });
     }
+    // windows of one parent with the SAME start and different lengths (a window and its own prefix,
+    // an empty window), through every slice pairing
+    if x.len() >= 1 {
+        let full = &parent[p1..p1 + x.len()];
+        for cut in [0usize, x.len() / 2, x.len() - 1] {
+            let pre = &parent[p1..p1 + cut];
+            let r = [full == pre, *full == *pre, full == *pre, pre == *full, pre == full, *pre == *full];
+            check!(ctx, r.iter().all(|e| !*e), format!("SeqSlice==SeqSlice|{name}|same-parent-same-start-prefix"), "{what}: a window of {} symbols and its own prefix of {cut} symbols (same start in the same buffer) compare equal in pairing #{:?}", x.len(), r.iter().position(|e| *e));
+            let owned = full.to_owned();
+            check!(ctx, !(owned == pre) && !(owned == *pre) && !(pre == owned) && !(*pre == owned), format!("Seq==SeqSlice|{name}|same-start-prefix"), "{what}: an owned copy equals a proper prefix");
+        }
+    }
     cell!(ctx, "{name}/same-parent/{}", if want { "equal" } else { "different" });
     ctx.nontrivial(fp(&[b"sp", name.as_bytes(), &all, &[p1 as u8, gap as u8]]));
 }
@@ -349,6 +361,33 @@ fn kmer_usize<C: CI, const K: usize, S: KS>(ctx: &mut Ctx) {
     });
 }
 
+/// sequences holding documented ALTERNATIVE codes (reachable through from_raw / bitwise ops): they decode and
+/// print as the symbol, so they equal their own displayed text
+fn alt_code_contents<C: CI>(ctx: &mut Ctx) {
+    let a = C::alpha();
+    let name = C::NAME;
+    let alts: Vec<u8> = a.syms.iter().flat_map(|s| s.alt_codes.iter().copied()).collect();
+    if alts.is_empty() {
+        return;
+    }
+    ctx.group(&format!("{name}/alternative-code-contents"), |ctx| {
+        for r in 0..ctx.n(200, 3000, 3) {
+            let n = 1 + ctx.rng.below(per_word(a.bits) + 4);
+            let raw: Vec<u8> = (0..n).map(|i| if (i + r) % 2 == 0 { *ctx.rng.pick(&alts) } else { *ctx.rng.pick(&a.codes()) }).collect();
+            let words: Vec<usize> = model::pack_words(a.bits, &raw).iter().map(|w| *w as usize).collect();
+            let Some(s) = Seq::<C>::from_raw(n, &words) else { continue };
+            ctx.eval();
+            let text: String = raw.iter().map(|c| a.char_of_code(*c).unwrap() as char).collect();
+            let shown = show::<C>(&s);
+            check!(ctx, shown == text, format!("display|{name}|alternative-codes"), "{name}: a sequence holding alternative codes displays {shown:?}, the symbols are {text:?}");
+            check!(ctx, s[..] == shown.as_str() && s[..] == text.as_str(), format!("SeqSlice==&str|{name}|own-display-alternative-codes"), "{name}: a sequence holding alternative codes {:?} does not equal its own displayed text {shown:?}", raw);
+            check!(ctx, s == s.clone() && s[..] == s[..].to_owned(), format!("Seq==Seq|{name}|alternative-codes-clone"), "{name}: clone of a sequence with alternative codes not equal");
+            ctx.nontrivial(fp(&[b"alt", name.as_bytes(), &raw]));
+        }
+        cell!(ctx, "{name}/alternative-code-contents");
+    });
+}
+
 fn statics(ctx: &mut Ctx) {
     ctx.group("static-literals", |ctx| {
         macro_rules! lit {
@@ -404,6 +443,7 @@ fn statics(ctx: &mut Ctx) {
 fn main() {
     run_main("C02", |ctx| {
         for_each_codec!(run, ctx);
+        for_each_codec!(alt_code_contents, ctx);
         statics(ctx);
         if ctx.lite {
             for_each_k_small!(kmer_case, usize, ctx);
@@ -415,7 +455,7 @@ fn main() {
             for_each_k128!(kmer_case, ctx);
             for_each_k64!(kmer_usize, usize, ctx);
         }
-        ctx.note("rule", json!("per codec: base contents at every length class x variants {equal, one symbol different at first/last/word-boundary/random, proper prefix, proper suffix, extended, empty} x all 14 Seq/&Seq/SeqSlice/&SeqSlice pairings with == and != in both directions, the two operands at independent bit offsets (x swept over ALL achievable offsets with y rotating, and vice versa); windows of the SAME parent buffer (equal and shifted-by-one); SeqSlice==&str incl. bad bytes and other lengths; recorded hasher byte stream + DefaultHasher equal for equal values across representations; HashMap<Seq,_> lookups by offset slices with RandomState and with an 8-bucket colliding hasher; every (codec,K,storage): Kmer==Kmer/SeqSlice/&SeqSlice/SeqArray/&SeqArray (+Seq, &str, Deref for usize) and k-mer hash stream == slice hash stream; static dna!/iupac!/kmer! literals. Distinct = (codec, x, y, pad1, pad2); non-trivial = all (each evaluates >= 14 comparisons against the model)."));
+        ctx.note("rule", json!("per codec: base contents at every length class x variants {equal, one symbol different at first/last/word-boundary/random, proper prefix, proper suffix, extended, empty} x all 14 Seq/&Seq/SeqSlice/&SeqSlice pairings with == and != in both directions, the two operands at independent bit offsets (x swept over ALL achievable offsets with y rotating, and vice versa); windows of the SAME parent buffer (equal, shifted-by-one, and same-start prefixes incl. the empty window); sequences holding alternative codes vs their own displayed text; SeqSlice==&str incl. bad bytes and other lengths; recorded hasher byte stream + DefaultHasher equal for equal values across representations; HashMap<Seq,_> lookups by offset slices with RandomState and with an 8-bucket colliding hasher; every (codec,K,storage): Kmer==Kmer/SeqSlice/&SeqSlice/SeqArray/&SeqArray (+Seq, &str, Deref for usize) and k-mer hash stream == slice hash stream; static dna!/iupac!/kmer! literals. Distinct = (codec, x, y, pad1, pad2); non-trivial = all (each evaluates >= 14 comparisons against the model)."));
         ctx.note("assumptions", json!(["'identical data' is judged on the concatenated byte stream fed to the hasher; segmentation into write calls is not compared", "unequal values are not required to hash differently"]));
     });
 }
